@@ -27,6 +27,7 @@ CONSTANTS
     Thresholds,   \* response thresholds of module contexts
     Kinds,        \* response kinds
     Msgs,         \* names of the message types enabled in this configuration
+    WithPrep,     \* TRUE: zero-height preparation may end a behaviour (C19 only)
     MaxHeight,
     MaxCtx,       \* number of contexts ever created
     MaxBatch      \* bound on the batch counter
@@ -173,7 +174,12 @@ BlockStep ==
     \/ \E id \in DOMAIN ctx : StartBatch(id) /\ ev' = [name |-> "StartBatch", ok |-> TRUE, signer |-> "", id |-> id]
     \/ \E dt \in Dts : height < MaxHeight /\ EndBlock(dt) /\ ev' = [name |-> "EndBlock", ok |-> TRUE, signer |-> "", dt |-> dt]
 
-MCNext == (MsgStep \/ BlockStep) /\ hist' = HistNext
+\* zero-height preparation ends the behaviour: the chain stops there
+PrepStep == WithPrep /\ PrepZeroHeight /\ ev' = [name |-> "PrepZeroHeight", ok |-> TRUE, signer |-> ""]
+
+MCNext == /\ ev.name # "PrepZeroHeight"
+          /\ (MsgStep \/ BlockStep \/ PrepStep)
+          /\ hist' = HistNext
 
 MCSpec == MCInit /\ [][MCNext]_pvars
 
@@ -202,6 +208,8 @@ P_C12 == [][Step_C12]_pvars
 P_C13 == [][Step_C13]_pvars
 P_C15 == [][Step_C15]_pvars
 P_C16 == [][Step_C16]_pvars
+P_C18 == [][Step_C18]_pvars
+P_C19 == [][Step_C19]_pvars
 
 TypeOK ==
     /\ phase \in {"deliver", "expire", "start"}
